@@ -800,6 +800,11 @@ theorem usedG_eq {s a : State} (h : WF s) (r : R s a) (i : Nat) (ov : PyVal) (e 
   unfold usedG
   rw [hok, r.ninst, r.icls, r.ianim, r.info, r.dft, effMethod_eq h r i ov]
 
+theorem usedFramesG_eq {s a : State} (h : WF s) (r : R s a) (i : Nat) (ov : PyVal) (e : Entry) :
+    usedFramesG implSem s i ov e = usedFramesG specSem a i ov e := by
+  unfold usedFramesG
+  rw [usedG_eq h r i ov e]
+
 theorem dumpG_eq {s a : State} (h : WF s) (r : R s a) : dumpG implSem s = dumpG specSem a := by
   unfold dumpG
   rw [r.ncls, r.ninst]
@@ -864,7 +869,7 @@ theorem step_refines {s a : State} (h : WF s) (r : R s a) (op : Op) :
   | rend i ov e =>
     show R (stepG implSem s (.rend i ov e)).1 (stepG specSem a (.rend i ov e)).1 ∧ _ = (stepG specSem a (.rend i ov e)).2
     simp only [stepG]
-    rw [usedG_eq h r i ov e]
+    rw [usedFramesG_eq h r i ov e]
     split <;> exact ⟨r, rfl⟩
   | dump =>
     show R (stepG implSem s .dump).1 (stepG specSem a .dump).1 ∧ _ = (stepG specSem a .dump).2
